@@ -205,6 +205,9 @@ def run_mode_case(R: Recorder, T: Template, d: Path, mode: str, how: str, end: s
             e = _safe(lambda: apply_op_strict(rec, NEWOP))
             R.check(e is None, f"{sig}:fresh-not-writable", f"fresh record must be writable, got {e}", case, FNS)
             _safe(lambda: rec.close(commit=True))
+            for cp in LC.containers_named(d, T.subject):
+                bad = LC.stored_hash_wrong(cp)  # what any OTHER process will compare against when it reopens the record
+                R.check(bad is None, f"{sig}:committed-with-wrong-hash", f"after close(commit) the recorded payload hash is not the hash of the file: {bad}", case, FNS + ["ih5/record.py:hashsum_file"])
             dmp, _, e2 = LC.open_dump(cls, d / T.subject, "r")
             R.check(e2 is None and dmp == ref_dump([NEWOP]), f"{sig}:fresh-roundtrip", f"fresh record after close/reopen: {'error ' + str(e2) if e2 else 'different tree'}", case, FNS)
             own_now = set(f for f in dir_digests(d) if f in own_now or f not in before)
@@ -339,6 +342,34 @@ def ends_for(mode, sit):
 LONG_HISTORY = [[["set", "a/x", 0], ["setattr", "/", "k", 0]]] + [[["set", f"a/n{i}", i], ["setattr", "/", "k", i]] + ([["del", f"a/n{i-1}"]] if i % 3 == 0 else []) for i in range(1, 12)]
 
 
+def run_generations_case(R: Recorder, cls_key: str, case):
+    """A record name reused in one process: generation 1 is created, used and reopened; then mode 'w' replaces it by
+    generation 2 (other content); what is on disk afterwards must be a record any other process can open: every
+    recorded payload hash is the hash of the file, and reopening shows generation 2."""
+    cls = CLASSES[cls_key]
+    sig = f"c03:{cls_key}:generations"
+    with tmpdir() as d:
+        views = []
+        for gen, mode2 in ((1, "r+"), (2, "a"), (3, "r+")):
+            rec = cls(d / "foo", "w")
+            apply_op(rec, ["set", f"g{gen}/x", gen], is_ih5=True)
+            apply_op(rec, ["setattr", "/", "gen", gen], is_ih5=True)
+            rec.close()
+            rec, err = try_open(cls, d / "foo", mode2)
+            if not R.check(err is None, f"{sig}:reopen-for-update", f"generation {gen}: the record just written with 'w' cannot be reopened with {mode2!r}: {err}", dict(case, gen=gen), FNS + ["ih5/record.py:hashsum_file"]):
+                return
+            apply_op(rec, ["set", f"g{gen}/y", [gen] * (gen + 1)], is_ih5=True)
+            view = dump_tree(rec)
+            rec.close()
+            for cp in LC.containers_named(d, "foo"):
+                bad = LC.stored_hash_wrong(cp)
+                R.check(bad is None, f"{sig}:committed-with-wrong-hash", f"generation {gen}: recorded payload hash is not the hash of the file ({bad}); no other process can open this record", dict(case, gen=gen), FNS + ["ih5/record.py:hashsum_file"])
+            dmp, _, err = LC.open_dump(cls, d / "foo", "r")
+            R.check(err is None and dmp == view, f"{sig}:reopen", f"generation {gen}: reopen by name: {'error ' + str(err) if err else 'tree differs from the one before close()'}", dict(case, gen=gen), FNS)
+            R.case(("generations", cls_key, gen), nontrivial=True)
+            views.append(view)
+
+
 def run_reopen_case(R: Recorder, cls_key: str, hidx: int, commit_last: bool, case, stats, perms_limit=None, segments=None):
     cls = CLASSES[cls_key]
     sig = f"c03:{cls_key}:reopen:{'committed' if commit_last else 'uncommitted-newest'}" + (":long-chain" if segments is not None else "")
@@ -401,6 +432,9 @@ def run(tier: str, seed: int) -> dict:
     for cls_key in ("ih5",) if tier == "quick" else ("ih5", "mf"):
         case = {"kind": "reopen-long", "cls": cls_key, "commit_last": True}
         run_reopen_case(R, cls_key, -1, True, case, stats, perms_limit=3, segments=LONG_HISTORY)
+    # ---- (A00) the same record name through several generations in this process
+    for cls_key in ("ih5", "mf"):
+        run_generations_case(R, cls_key, {"kind": "generations", "cls": cls_key})
     # ---- (A)
     hist_a = [0, 1, 3, 5] if tier == "quick" else list(range(len(HISTORIES)))
     a_done = 0
@@ -468,7 +502,9 @@ def run(tier: str, seed: int) -> dict:
 def replay(case: dict):
     R = Recorder(PID, DRV)
     stats = {"opened": 0, "refused": 0, "skipped": 0, "perm_opens": 0, "w_leftover_sidecars": 0, "cells": 0, "templates": 0}
-    if case["kind"] == "reopen-long":
+    if case["kind"] == "generations":
+        run_generations_case(R, case["cls"], {"kind": "generations", "cls": case["cls"]})
+    elif case["kind"] == "reopen-long":
         c = {k: v for k, v in case.items() if k != "perm"}
         run_reopen_case(R, case["cls"], -1, case["commit_last"], c, stats, perms_limit=3, segments=LONG_HISTORY)
     elif case["kind"] == "reopen":
